@@ -391,6 +391,28 @@ def hyp_settings(n, shrink=True):
     )
 
 
+def guarded(check, case):
+    """Run one oracle.  Every call into the library sits in a lib() block, which turns the library's own
+    exceptions into violations.  What can still escape is a type confusion in the oracle itself when the
+    library hands back something that is not the kind of value the property speaks of (an int where a byte
+    string belongs, None where a buffer belongs): bytes()/len()/indexing of such a value fails with
+    TypeError / AttributeError / OverflowError.  The checks are quiet on the unchanged tree, so such a
+    failure is caused by the value the library returned; it is reported as a violation, with the place,
+    rather than as a harness error.  Other exception types (OSError, MemoryError, KeyError, ...) stay
+    harness errors (exit 2)."""
+    try:
+        return check(case)
+    except Violation:
+        raise
+    except (TypeError, AttributeError, OverflowError) as e:
+        import traceback
+
+        tb = traceback.extract_tb(e.__traceback__)
+        where = next(("%s:%d %s" % (os.path.basename(f.filename), f.lineno, f.name) for f in reversed(tb)
+                      if os.sep + "pbt" + os.sep in f.filename), "?")
+        raise Violation("unusable_value:%s" % type(e).__name__, {"error": repr(e)[:200], "where": where})
+
+
 def search(ctx, subject, strategy, check, n, max_causes=4):
     """Generated-input search for one subject.
 
@@ -413,7 +435,7 @@ def search(ctx, subject, strategy, check, n, max_causes=4):
             if h64(canon(case)) not in guard["failing"]:
                 return
         try:
-            r = check(case)
+            r = guarded(check, case)
         except Violation as v:
             ctx.evaluations += 1
             if ctx.handle(subject, case, v):
@@ -461,7 +483,7 @@ def search(ctx, subject, strategy, check, n, max_causes=4):
 def run_one(ctx, subject, case, check):
     """One deterministic (enumerated) case through the same accounting/violation path."""
     try:
-        r = check(case)
+        r = guarded(check, case)
     except Violation as v:
         ctx.evaluations += 1
         if not ctx.handle(subject, case, v):
